@@ -28,7 +28,7 @@ def run(ctx):
     f = ctx.need_fn("E6.split", "SecretKey<C>::split_with_rng")
     if f is not None:
         ev = evaluate(f)
-        sites = [s for s in ev.sites.values() if s.callee[0] == "split_secret" or s.callee[0].endswith("::split_secret")]
+        sites = [s for s in ev.sites.values() if s.callee[0] == "vsss_rs::split_secret"]
         ok = False
         shown = None
         if sites:
@@ -49,7 +49,7 @@ def run(ctx):
         ctx.ob("E6.split", "split", ok, "split = split_with_rng(self, threshold, limit, get_crypto_rng()): %s" % show(r, 4), where=where(f))
     # combine and from_shares: all shares forwarded
     for fk, sink in (
-        ("SecretKey<C>::combine", "combine_shares"),
+        ("SecretKey<C>::combine", "vsss_rs::combine_shares"),
         ("Signature<C>::from_shares", "BlsSignatureCore::core_combine_signature_shares"),
         ("PublicKey<C>::from_shares", "BlsSignatureCore::core_combine_public_key_shares"),
         ("SignCryptDecryptionKey<C>::from_shares", "BlsSignatureCore::core_combine_public_key_shares"),
@@ -83,7 +83,7 @@ def run(ctx):
         if f is None:
             continue
         ev = evaluate(f)
-        sites = [s for s in ev.sites.values() if s.callee[0] == "combine_shares_group"]
+        sites = [s for s in ev.sites.values() if s.callee[0] == "vsss_rs::combine_shares_group"]
         ok = bool(sites) and F.projection_root(strip_sites(sites[0].args[0])) is not None and F.projection_root(strip_sites(sites[0].args[0]))[0].a[1] == "shares"
         ctx.ob("E6.combine", fk, ok, "combine_shares_group(shares) receives the slice unmodified", where=where(f))
     # c. from_shares guard + variant
